@@ -71,6 +71,12 @@ def api_strategy(tier):
         codes = draw(st.lists(st.sampled_from(lang_pool), min_size=nl, max_size=nl, unique=True))
         sids = draw(st.lists(st.sampled_from(id_pool), min_size=0, max_size=3, unique=True))
         styles = {sid: draw(_style_dict(meta_attr)) for sid in sids}
+        # chained styles: a style that extends another one (the DFXP reader returns those)
+        for sid in sids:
+            if len(sids) > 1 and draw(st.integers(0, 3)) == 0:
+                styles[sid]["class"] = draw(st.sampled_from([x for x in sids if x != sid]))
+        if sids and draw(st.integers(0, 3)) == 0:
+            styles[sids[0]] = {"bold": True}      # a style DFXP cannot express at all
         percent = draw(st.integers(0, 3)) != 0
         lay = _layout(percent)
         ln = gen.lines(meta=True, markers=False)
@@ -111,6 +117,8 @@ def api_strategy(tier):
                     cstyle = draw(_style_dict(meta_attr))
                 cues.append({"start": t, "end": t + 900000, "nodes": nodes, "style": cstyle,
                              "layout": draw(st.one_of(st.none(), lay))})
+            if draw(st.integers(0, 3)) == 0:
+                cues = draw(st.permutations(cues))     # not chronological; equal timespans apart
             langs.append({"code": code, "layout": draw(st.one_of(st.none(), st.none(), lay)), "cues": cues})
         opts = {"relativize": draw(st.booleans()), "fit": draw(st.booleans()),
                 "vw": draw(st.sampled_from([None, 640, 1920])), "vh": draw(st.sampled_from([None, 360, 1080])),
